@@ -51,7 +51,7 @@ pub fn random_constraints(rng: &mut Rng, around: Option<&Joints>) -> ([f64; 6], 
 }
 
 #[derive(Clone, Copy, PartialEq, Debug)]
-pub enum PoseKind { Reachable, Sing0, SingPi, Unreachable, OnAxis, Stretched, Random }
+pub enum PoseKind { Reachable, Sing0, SingPi, Unreachable, OnAxis, Stretched, Random, NearSing }
 
 /// model-angle joints for a kind; returns external joints
 pub fn origin_joints(rng: &mut Rng, r: &Robot, kind: PoseKind) -> Joints {
@@ -59,6 +59,8 @@ pub fn origin_joints(rng: &mut Rng, r: &Robot, kind: PoseKind) -> Joints {
     match kind {
         PoseKind::Sing0 => q[4] = 0.0,
         PoseKind::SingPi => q[4] = PI,
+        // inside the 0.01 degree detection band but not on the singularity
+        PoseKind::NearSing => { let e = rng.range(2e-6, 1.6e-4) * if rng.bool() { 1.0 } else { -1.0 }; q[4] = if rng.below(4) == 0 { PI + e } else { e }; }
         PoseKind::Stretched => { q[2] = -f64::atan2(r.p.a2, r.p.c3) + PI / 2.0 - PI / 2.0; }
         _ => {
             // keep away from the wrist singularity for plain reachable cases
@@ -105,10 +107,12 @@ pub fn random_robot(rng: &mut Rng, idx: u64, with_cons: bool, around: Option<&Jo
 }
 
 /// Non-singularity margins of C02 computed from the model angles (oracle side).
-pub fn nonsingular(r: &Robot, j: &Joints) -> bool {
+pub fn nonsingular(r: &Robot, j: &Joints) -> bool { nonsingular_w(r, j, 0.02) }
+/// the same with an explicit wrist margin on |sin q5|
+pub fn nonsingular_w(r: &Robot, j: &Joints, wrist: f64) -> bool {
     let q = r.to_model(j);
     let p = &r.p;
-    if q[4].sin().abs() < 0.02 { return false; }
+    if q[4].sin().abs() < wrist { return false; }
     let psi3 = f64::atan2(p.a2, p.c3);
     if (q[2] + psi3).sin().abs() < 0.02 { return false; }       // elbow
     let k = (p.a2 * p.a2 + p.c3 * p.c3).sqrt();
